@@ -301,3 +301,206 @@ def replay_occurrences(rp):
         bad = sorted(got) != sorted(expect)
         return bad, "asked for %d instances: %d references returned, %d occurrences exist" % (
             len(want_objs), len(got), len(expect))
+
+
+def _endpoints(u, fx, h):
+    """leaf-instance pins and top-level port pins of the fixture: [(label, class, local slot)]"""
+    sh = fx["shape"]
+    eps = []
+    top_def = fx["refs"][fx["top"]]
+    for port in sh.get(("Definition", top_def, "_ports"), []):
+        for pin in sh.get(("Port", port, "_pins"), []):
+            eps.append(("top-port-pin%d" % pin, "InnerPin", pin))
+    leaf_defs = {d for d in range(u.live["Definition"]) if not sh.get(("Definition", d, "_children"))
+                 and not sh.get(("Definition", d, "_cables"))}
+    for i, d in fx["refs"].items():
+        if d in leaf_defs and i != fx["top"]:
+            for p in range(u.live["InnerPin"]):
+                o = h.pinmap[i][p]
+                if o != NONE_ID:
+                    eps.append(("inst%d.pin%d" % (i, p), "OuterPin", u.cls_of(o)[1]))
+    return eps
+
+
+def flatten_job(fixture, tier, timeout_ms=400000, only_goal=None, wire_cube=None, cube_name=""):
+    """flatten(netlist) on a hierarchy-concrete, uniquified fixture with SYMBOLIC connections: two endpoints
+    (leaf pins, top port pins) are connected afterwards iff they were connected through the hierarchy before;
+    only leaf instances remain, named by their path; the netlist stays well-formed."""
+    import spydrnet.flatten as fl
+    t0 = time.time()
+    name = "C09/flatten{%s}%s" % (fixture, "{%s}" % cube_name if cube_name else "")
+    u, pre, fx = H.build(fixture)
+    if wire_cube:
+        H.apply_wire_cube(pre, fx, {int(k): v for k, v in wire_cube.items()})
+    heap = pre.copy()
+    ctx = Ctx(heap, M.REAL)
+    M.listeners_none(ctx)
+    ctx.loop_bound = 6
+    fr = Frame(None, True, {})
+    kn = u.keys.index(".NAME")
+    A = pre.type_constraints() + spec.inv_all(pre) + H.local_nets(pre, fx)
+    for c in ("Instance", "Cable"):
+        for i in range(u.live[c]):
+            A.append(pre.data[c][i][kn][0])
+    A = [B(a) for a in A if a is not True]
+    paths = H.enumerate_paths(u, fx)
+    W, adj = hwire_adjacency(pre, u, fx, paths)
+    R = closure(W, adj)
+    try:
+        call_function(ctx, fr, fl.flatten, [Ref(u.gid("Netlist", 0), ("Netlist",))])
+    except Unsupported as e:
+        return [result(name, INCONCLUSIVE, "E1/symheap", detail="Unsupported: %s" % e, wall_s=time.time() - t0)]
+    post = heap
+    eps = _endpoints(u, fx, pre)
+    # the hierarchical wire an endpoint sits on before: outer pins of an instance at path P sit on a wire of P's parent
+    inst_paths = {}
+    for p in paths:
+        if u.cls_of(p[-1])[0] == "Instance":
+            inst_paths.setdefault(u.cls_of(p[-1])[1], []).append(p)
+
+    def hwires_of(ep):
+        lab, c, slot = ep
+        wt = pre.sc[(c, "_wire")][slot]
+        rows = []
+        if c == "InnerPin":
+            par = (u.gid("Instance", fx["top"]),)
+        else:
+            inst = u.cls_of(pre.sc[("OuterPin", "_instance")][slot])[1]
+            ps = inst_paths.get(inst, [])
+            assert len(ps) == 1, "fixture must be uniquified"
+            par = tuple(ps[0][:-1])
+        for w in W:
+            if tuple(w[:-2]) == par:
+                rows.append((EQ(wt, w[-1]), w))
+        return rows
+    conn = []
+    for x in range(len(eps)):
+        for y in range(x):
+            a, b = eps[x], eps[y]
+            before = OR(*[AND(ca, cb, R[(wa, wb)]) for ca, wa in hwires_of(a) for cb, wb in hwires_of(b)])
+            wa2, wb2 = post.sc[(a[1], "_wire")][a[2]], post.sc[(b[1], "_wire")][b[2]]
+            after = AND(NE(wa2, NONE_ID), EQ(wa2, wb2))
+            conn.append(EQ(before, after))
+    top_def = fx["refs"][fx["top"]]
+    (cl, cel) = post.ls[("Definition", "_children")][top_def]
+    leaf_insts = sorted({u.cls_of(pre.sc[("OuterPin", "_instance")][e[2]])[1] for e in eps if e[1] == "OuterPin"})
+    only_leaves = [EQ(cl, len(leaf_insts))] + [
+        OR(*[AND(LT(k, cl), EQ(cel[k], u.gid("Instance", i))) for k in range(len(cel))]) for i in leaf_insts]
+    goals = {"endpoints-connected-iff-they-were": NOT(AND(*conn)),
+             "only-leaf-instances-remain-one-per-occurrence": NOT(AND(*only_leaves))}
+    inv = spec.inv_groups(post)
+    wf = [c for g, cs in inv.items() for c in cs]
+    goals["well-formed-afterwards"] = NOT(AND(*wf))
+    funcs = sorted(fn_ident(f) for f in ctx.funcs_seen)
+    bounds = dict(u.describe(), fixture=fixture, endpoints=[e[0] for e in eps],
+                  connection_cube=wire_cube or "all connections symbolic")
+    ok = [B(NOT(ctx.bound)), B(NOT(ctx.exc))]
+    tw = {"returns": M.check(A, AND(NOT(ctx.exc), NOT(ctx.bound)), 300000)[0]}
+    if tw["returns"] != "sat":
+        return [result(name, VACUOUS if tw["returns"] == "unsat" else INCONCLUSIVE, "E1/symheap", twins=tw,
+                       bounds=bounds, detail="normal return not shown reachable: %s" % sorted(set(ctx.bound_why))[:3])]
+    out = []
+    for g, goal in list(goals.items()) + [("never-raises", None)]:
+        if only_goal is not None and g != only_goal:
+            continue
+        oname = name + "/" + g
+        if goal is None:
+            st, dt, mdl = M.check(A + [B(NOT(ctx.bound))], ctx.exc, timeout_ms)
+        else:
+            st, dt, mdl = M.check(A + ok, goal, timeout_ms)
+        if st == "unsat":
+            out.append(result(oname, DISCHARGED, "E1/symheap", queries=1, solver_s=dt, twins=tw, bounds=bounds,
+                              functions=funcs, detail="unsat", wall_s=time.time() - t0, paths=1))
+        elif st != "sat":
+            out.append(result(oname, INCONCLUSIVE, "E1/symheap", detail="solver: %s" % st, bounds=bounds))
+        else:
+            state = replay.heap_to_state(pre, mdl)
+            rp = {"engine": "E1", "property": "C09", "obligation": oname, "kind": "flatten", "state": state,
+                  "netlist": u.gid("Netlist", 0)}
+            try:
+                viol, txt = replay_flatten(rp)
+            except Exception:
+                viol, txt = False, "replay crashed: " + traceback.format_exc()[-400:]
+            out.append(result(oname, VIOLATED if viol else ERROR, "E1/symheap", queries=1, solver_s=dt, twins=tw,
+                              bounds=bounds, functions=funcs, replay=rp if viol else None,
+                              detail=txt if viol else "counterexample did not reproduce: " + txt,
+                              wall_s=time.time() - t0))
+    return out
+
+
+def _elaborated_nets(netlist):
+    """plain elaboration: partition of (leaf pin / top port pin) endpoints into connected nets"""
+    import spydrnet as sdn
+    parent = {}
+
+    def find(x):
+        parent.setdefault(x, x)
+        while parent[x] != x:
+            parent[x] = parent[parent[x]]
+            x = parent[x]
+        return x
+
+    def union(a, b):
+        parent[find(a)] = find(b)
+    endpoints = {}
+    top = netlist.top_instance
+
+    def walk(path):
+        inst = path[-1]
+        d = inst.reference
+        key = tuple(id(x) for x in path)
+        for cab in d.cables:
+            for w in cab.wires:
+                wk = ("w", key, id(w))
+                find(wk)
+                for pin in w.pins:
+                    if isinstance(pin, sdn.InnerPin):
+                        if len(path) == 1:
+                            ek = ("top", pin.port.name, pin.port.pins.index(pin))
+                            endpoints[ek] = wk
+                            union(ek, wk)
+                        else:
+                            op = inst.pins[pin]
+                            if op.wire is not None:
+                                union(wk, ("w", tuple(id(x) for x in path[:-1]), id(op.wire)))
+                    else:
+                        ch = pin.instance
+                        if ch.reference.is_leaf():
+                            names = "/".join(x.name or "?" for x in path[1:] + [ch])
+                            ek = ("leaf", names, pin.inner_pin.port.name, pin.inner_pin.port.pins.index(pin.inner_pin))
+                            endpoints[ek] = wk
+                            union(ek, wk)
+        for ch in d.children:
+            if not ch.reference.is_leaf():
+                walk(path + [ch])
+    walk([top])
+    groups = {}
+    for ek in endpoints:
+        groups.setdefault(find(ek), set()).add(ek)
+    return sorted(sorted(map(str, g)) for g in groups.values())
+
+
+def replay_flatten(rp):
+    import spydrnet as sdn
+    from spydrnet.flatten import flatten
+    from vf.e1 import wellformed
+    with replay.listener_config("none"):
+        objs = replay.build(rp["state"])
+        built, _ = replay.abstract(objs)
+        diffs = replay.states_equal(rp["state"], built)
+        if diffs:
+            return False, "built state differs from the model: " + "; ".join(diffs[:3])
+        n = objs[rp["netlist"]]
+        before = _elaborated_nets(n)
+        try:
+            flatten(n)
+        except Exception as e:
+            return True, "flatten raised %s: %s" % (type(e).__name__, str(e)[:80])
+        after = _elaborated_nets(n)
+        probs = []
+        if before != after:
+            probs.append("connectivity changed: %s -> %s" % (before, after))
+        if any(not c.reference.is_leaf() for c in n.top_instance.reference.children):
+            probs.append("a hierarchical instance remains")
+        probs += wellformed.c01_problems(wellformed.closure(list(objs.values())))
+        return bool(probs), "flatten: %s" % probs[:3]
